@@ -13,3 +13,12 @@
 (declare-fun hashkey (Pos) INTSORT)      ; the identity key of a node: FNV-1a of its rendering (instance hashkeyDef)
 (declare-fun re_match (Int Str) Bool)        ; (*regexp.Regexp).MatchString
 (declare-fun re_replace (Int Str Str) Str)   ; (*regexp.Regexp).ReplaceAllString
+; translate() (C09). chrstr_(c): string(rune(c)), the UTF-8 encoding of character code c (int-mode twin of runestr).
+; repl_apply(pairs, off, n, s): strings.NewReplacer(pairs[off], ..., pairs[off+n-1]).Replace(s).
+; xtranslate(s, a, b): XPath 1.0 translate(s, a, b) (4.2): every character of s that occurs in a, at first
+; position j, is replaced by the j-th character of b, or removed when b has no j-th character; other
+; characters stay. The link between the two (a Replacer over the pair list (a[j], b[j] or "") computes
+; xtranslate) is the instance replacerTranslate in the contract file.
+(declare-fun chrstr_ (INTSORT) Str)
+(declare-fun repl_apply ((Array INTSORT Str) INTSORT INTSORT Str) Str)
+(declare-fun xtranslate (Str Str Str) Str)
